@@ -274,6 +274,41 @@ def find_user_case(rng, variant):
     return term, human
 
 
+def find_wrapper_case(rng, root_name):
+    """pynetdicom2.c_find, the one-call wrapper, against a real server entity over loopback TCP."""
+    import pynetdicom2
+    import loopback
+    from pynetdicom2 import applicationentity as aemod, sopclass, dimsemessages as dm, statuses
+    root = sopclass.PATIENT_ROOT_FIND_SOP_CLASS if root_name == 'patient' else sopclass.STUDY_ROOT_FIND_SOP_CLASS
+    n = rng.choice([0, 1, 2, 5])
+    matches = [(sd.small_dataset(k, rng.choice([0, 30, 3000])), rng.choice([0xFF00, 0xFF01])) for k in range(n)]
+    query = sd.small_dataset(99, rng.choice([0, 50]))
+    seen = []
+
+    class Srv(aemod.AE):
+        def on_receive_find(self, context, ds):
+            seen.append((str(context.sop_class), sd.encode_ds(ds)))
+            return iter([(d, statuses.Status(st, dm.CFindRSPMessage)) for d, st in matches])
+    srv = Srv('SERVER', 0, max_pdu_length=rng.choice([0, 256, 16384])).add_scp(sopclass.qr_find_scp)
+    srv.handle_error = lambda *a: None
+    ys, err = [], None
+    with loopback.serving(srv) as port:
+        try:
+            args = (loopback.remote(port), 'CLIENT', query) + (() if root_name == 'patient' and rng.random() < 0.5 else (root,))
+            for a, b in pynetdicom2.c_find(*args):
+                ys.append(((sd.encode_ds(a) if a is not None else None), int(b)))
+        except Exception as e:  # noqa
+            err = repr(e)
+    query_seen = len(seen) == 1 and seen[0] == (str(root), sd.encode_ds(query))
+    term = '(Wrapper %s %s %s)' % (
+        cbool(query_seen), clist(['(%s, %d)' % (cbytes(sd.encode_ds(d)), st) for d, st in matches]),
+        clist(['(%s, %d)' % ('None' if a is None else '(Some %s)' % cbytes(a), b) for a, b in ys]))
+    human = dict(variant='c_find-wrapper-' + root_name, n_matches=n, statuses=[hex(st) for _d, st in matches], error=err,
+                 yielded=len(ys), yielded_statuses=[hex(b) for _a, b in ys], query_seen=query_seen, max_pdu=srv.max_pdu_length,
+                 handler_calls=len(seen))
+    return term, human
+
+
 def main_c16(tier, seed):
     dec = common.Decision('C16', tier, seed)
     common.static_gate(dec, ['Properties/C16.v'], ['Proofs/ServicesProofs.v'])
@@ -284,11 +319,15 @@ def main_c16(tier, seed):
             obs.append(find_case(rng, variant))
         for _ in range(40 if tier == 'quick' else 400):
             obs.append(find_user_case(rng, variant))
+    for root_name in ('patient', 'study'):
+        for _ in range(6 if tier == 'quick' else 40):
+            obs.append(find_wrapper_case(rng, root_name))
     return finish(dec, 'C16', obs, 'fcase', [('corr', 'find_corr'), ('spec', 'find_spec')],
                   ('query/retrieve C-FIND and modality worklist: result sequences of length 0,1,2,3,7 with seeded data sets '
                    'of several sizes and any mix of FF00 / FF01, maximum PDU lengths forcing multi-fragment responses, the '
                    'provider\'s responses passed through the real encoder and decoder to the real user side; and the user side alone on '
-                   'scripted responses ending with success / failure / cancel followed by further messages'),
+                   'scripted responses ending with success / failure / cancel followed by further messages; and the one-call '
+                   'pynetdicom2.c_find wrapper against a real server entity over loopback TCP (patient and study root)'),
                   lambda h: (h['variant'], h['n_matches'], tuple(h['statuses']), h['max_pdu'], h.get('final')), 'wrong-find-results')
 
 
